@@ -9,7 +9,7 @@ Objects (`lean/FlVerif/Op/PyExtEngineIO.lean`, models in `lean/FlVerif/Op/Engine
   like Python, negative from the end, `IndexError`);
 * `__getitem__` builds the list of the three *generated* look-ups (bound methods are functions `Key → Py.M Comp`);
 * a variable, as far as the value getters look at it, is the pair of the variable and the value it holds
-  (`Op.Engine.VarValue`: a float / 0-d array or a 1-D array); `Engine.output_values` (repaired, F15) puts the input
+  (`Op.Engine.VarValue`: a float / 0-d array or a 1-D array); `Engine.output_values` (repaired, F17) puts the input
   variables and the output variables into ONE list: its elements are variables of either kind (`Py.EIO.Variable`, the
   base class; `Py.EIO.inVariable` / `outVariable` view a variable of a subclass as one); the NumPy calls `np.column_stack`, `np.array`,
   `np.broadcast_arrays`, `np.atleast_1d`, `np.hstack` are the operations of `Py.EIO` on these values and on `NdArr`;
